@@ -1,4 +1,242 @@
 /- Helper lemmas for C05 (closure computation of the criteria mapper). -/
 import Vet.Spec.Criteria
 namespace Vet
+
+/-! ## Bit facts -/
+
+theorem testBit_set (s i j : Nat) :
+    (s ||| (1 <<< i)).testBit j = true ↔ (s.testBit j = true ∨ i = j) := by
+  simp [Nat.testBit_or, Nat.one_shiftLeft, Nat.testBit_two_pow]
+
+theorem testBit_single (i j : Nat) : (1 <<< i).testBit j = true ↔ i = j := by
+  simp [Nat.one_shiftLeft, Nat.testBit_two_pow]
+
+theorem mem_indices (n s i : Nat) : i ∈ CSet.indices n s ↔ i < n ∧ s.testBit i = true := by
+  simp [CSet.indices, List.mem_filter, List.mem_range]
+
+/-! ## Abstract reachability over the `direct` bitmask list -/
+
+/-- one step: `j` is a direct successor of `i` (restricted to indices below `n`) -/
+def D (n : Nat) (direct : List CSet) (i j : Nat) : Prop :=
+  j < n ∧ (direct.getD i 0).testBit j = true
+
+inductive Reach (n : Nat) (direct : List CSet) : Nat → Nat → Prop
+  | refl (i : Nat) : Reach n direct i i
+  | step {i k j : Nat} : D n direct i k → Reach n direct k j → Reach n direct i j
+
+/-- at least one step -/
+def Plus (n : Nat) (direct : List CSet) (i j : Nat) : Prop :=
+  ∃ k, D n direct i k ∧ Reach n direct k j
+
+theorem Reach.trans {n direct i j k} (h₁ : Reach n direct i j) (h₂ : Reach n direct j k) :
+    Reach n direct i k := by
+  induction h₁ with
+  | refl _ => exact h₂
+  | step hd _ ih => exact .step hd (ih h₂)
+
+theorem Plus.reach {n direct i j} (h : Plus n direct i j) : Reach n direct i j := by
+  obtain ⟨k, hd, hr⟩ := h
+  exact .step hd hr
+
+theorem Plus.of_D {n direct i j} (h : D n direct i j) : Plus n direct i j :=
+  ⟨j, h, .refl j⟩
+
+theorem Plus.head {n direct i k j} (h : D n direct i k) (h₂ : Plus n direct k j) :
+    Plus n direct i j :=
+  ⟨k, h, h₂.reach⟩
+
+theorem Plus.lt {n direct i j} (h : Plus n direct i j) : j < n := by
+  obtain ⟨k, hd, hr⟩ := h
+  induction hr generalizing i with
+  | refl _ => exact hd.1
+  | step hd' _ ih => exact ih hd'
+
+/-! ## Post-condition of the DFS -/
+
+/-- What a successful run of the DFS from `cur` with accumulator `r` guarantees on its
+result `r'`. -/
+structure Post (n : Nat) (direct : List CSet) (cur : Nat) (r r' : CSet) : Prop where
+  mono : ∀ j, r.testBit j = true → r'.testBit j = true
+  new : ∀ i, r'.testBit i = true → r.testBit i = false →
+    (∀ j, D n direct i j → r'.testBit j = true) ∧ Plus n direct cur i
+
+theorem loop_post {n : Nat} {direct : List CSet} {rec : CSet → Nat → Except Panic CSet} (cur : Nat)
+    (ih : ∀ result c r', rec result c = .ok r' →
+      Post n direct c result r' ∧ ∀ j, D n direct c j → r'.testBit j = true) :
+    ∀ (L : List Nat) (r r' : CSet), (∀ x ∈ L, D n direct cur x) →
+      implLoop rec L r = .ok r' →
+      Post n direct cur r r' ∧ ∀ x ∈ L, r'.testBit x = true := by
+  intro L
+  induction L with
+  | nil =>
+    intro r r' _ h
+    simp only [implLoop] at h
+    cases h
+    refine ⟨⟨fun _ h => h, ?_⟩, by simp⟩
+    intro i h1 h2
+    simp [h1] at h2
+  | cons idx rest ihL =>
+    intro r r' hL h
+    simp only [implLoop] at h
+    have hrest : ∀ x ∈ rest, D n direct cur x := fun x hx => hL x (List.mem_cons_of_mem _ hx)
+    have hidx : D n direct cur idx := hL idx (List.mem_cons_self ..)
+    split at h
+    · next hb =>
+      obtain ⟨hp, hin⟩ := ihL r r' hrest h
+      refine ⟨hp, ?_⟩
+      intro x hx
+      rcases List.mem_cons.1 hx with rfl | hx
+      · exact hp.mono _ hb
+      · exact hin x hx
+    · next hb =>
+      split at h
+      · cases h
+      · next r1 hrec =>
+        obtain ⟨hp1, hs1⟩ := ih _ _ _ hrec
+        obtain ⟨hp2, hin2⟩ := ihL r1 r' hrest h
+        have hidx1 : r1.testBit idx = true := hp1.mono idx ((testBit_set ..).2 (Or.inr rfl))
+        refine ⟨⟨?_, ?_⟩, ?_⟩
+        · intro j hj
+          exact hp2.mono j (hp1.mono j ((testBit_set ..).2 (Or.inl hj)))
+        · intro i hi hri
+          cases h1 : r1.testBit i with
+          | false => exact hp2.new i hi h1
+          | true =>
+            by_cases hii : idx = i
+            · subst hii
+              exact ⟨fun j hj => hp2.mono j (hs1 j hj), Plus.of_D hidx⟩
+            · have : (r ||| 1 <<< idx).testBit i = false := by
+                cases h2 : (r ||| 1 <<< idx).testBit i with
+                | false => rfl
+                | true =>
+                  rcases (testBit_set ..).1 h2 with h3 | h3
+                  · simp [h3] at hri
+                  · exact absurd h3 hii
+              obtain ⟨hc, hpl⟩ := hp1.new i h1 this
+              exact ⟨fun j hj => hp2.mono j (hc j hj), Plus.head hidx hpl⟩
+        · intro x hx
+          rcases List.mem_cons.1 hx with rfl | hx
+          · exact hp2.mono _ hidx1
+          · exact hin2 x hx
+
+theorem rec_post {n : Nat} {direct : List CSet} :
+    ∀ (fuel : Nat) (result cur : Nat) (r' : CSet),
+      recurseImplies n direct fuel result cur = .ok r' →
+      Post n direct cur result r' ∧ ∀ j, D n direct cur j → r'.testBit j = true := by
+  intro fuel
+  induction fuel with
+  | zero =>
+    intro result cur r' h
+    simp [recurseImplies] at h
+  | succ fuel ih =>
+    intro result cur r' h
+    simp only [recurseImplies] at h
+    obtain ⟨hp, hin⟩ := loop_post cur ih _ _ _ (by
+      intro x hx
+      exact (mem_indices ..).1 hx) h
+    exact ⟨hp, fun j hj => hin j ((mem_indices ..).2 hj)⟩
+
+/-- Started from the empty accumulator, the DFS computes exactly the `≥ 1`-step
+reachability set of `cur`. -/
+theorem rec_zero_spec {n : Nat} {direct : List CSet} {fuel cur : Nat} {r' : CSet}
+    (h : recurseImplies n direct fuel 0 cur = .ok r') (j : Nat) :
+    r'.testBit j = true ↔ Plus n direct cur j := by
+  obtain ⟨hp, hs⟩ := rec_post _ _ _ _ h
+  constructor
+  · intro hj
+    exact (hp.new j hj (by simp)).2
+  · rintro ⟨k, hd, hr⟩
+    have hk : r'.testBit k = true := hs k hd
+    clear hd
+    induction hr with
+    | refl _ => exact hk
+    | step hd' _ ih => exact ih ((hp.new _ hk (by simp)).1 _ hd')
+
+/-! ## Fuel sufficiency -/
+
+/-- number of indices below `n` not yet in `r` -/
+def meas (n : Nat) (r : CSet) : Nat := (List.range n).countP (fun i => !r.testBit i)
+
+theorem countP_lt_of {α} {p q : α → Bool} {l : List α} (hpq : ∀ x ∈ l, p x = true → q x = true)
+    {a : α} (ha : a ∈ l) (hq : q a = true) (hp : p a = false) :
+    l.countP p < l.countP q := by
+  induction l with
+  | nil => cases ha
+  | cons x xs ih =>
+    have hmono : xs.countP p ≤ xs.countP q :=
+      List.countP_mono_left (fun y hy => hpq y (List.mem_cons_of_mem _ hy))
+    rcases List.mem_cons.1 ha with rfl | ha'
+    · simp only [List.countP_cons, hq, hp]
+      simp
+      omega
+    · have := ih (fun y hy => hpq y (List.mem_cons_of_mem _ hy)) ha'
+      simp only [List.countP_cons]
+      have hx := hpq x (List.mem_cons_self ..)
+      cases hpx : p x with
+      | false => simp; omega
+      | true => simp [hx hpx]; omega
+
+theorem meas_mono {n : Nat} {r r' : CSet} (h : ∀ j, r.testBit j = true → r'.testBit j = true) :
+    meas n r' ≤ meas n r := by
+  apply List.countP_mono_left
+  intro x _ hx
+  cases hr : r.testBit x with
+  | false => rfl
+  | true => simp [h x hr] at hx
+
+theorem meas_lt {n : Nat} {r r' : CSet} (h : ∀ j, r.testBit j = true → r'.testBit j = true)
+    {a : Nat} (ha : a < n) (har : r.testBit a = false) (har' : r'.testBit a = true) :
+    meas n r' < meas n r := by
+  apply countP_lt_of (a := a)
+  · intro x _ hx
+    cases hr : r.testBit x with
+    | false => rfl
+    | true => simp [h x hr] at hx
+  · exact List.mem_range.2 ha
+  · simp [har]
+  · simp [har']
+
+theorem meas_le (n : Nat) (r : CSet) : meas n r ≤ n := by
+  have := List.countP_le_length (p := fun i => !r.testBit i) (l := List.range n)
+  simpa [meas] using this
+
+theorem loop_ok {n : Nat} {fuel : Nat} {rec : CSet → Nat → Except Panic CSet}
+    (ih : ∀ result c, meas n result < fuel → ∃ r', rec result c = .ok r')
+    (hpost : ∀ result c r', rec result c = .ok r' → ∀ j, result.testBit j = true → r'.testBit j = true) :
+    ∀ (L : List Nat) (r : CSet), (∀ x ∈ L, x < n) → meas n r ≤ fuel →
+      ∃ r', implLoop rec L r = .ok r' := by
+  intro L
+  induction L with
+  | nil =>
+    intro r _ _
+    exact ⟨r, by simp only [implLoop]⟩
+  | cons idx rest ihL =>
+    intro r hL hm
+    have hrest : ∀ x ∈ rest, x < n := fun x hx => hL x (List.mem_cons_of_mem _ hx)
+    have hidx : idx < n := hL idx (List.mem_cons_self ..)
+    simp only [implLoop]
+    split
+    · exact ihL r hrest hm
+    · next hb =>
+      have hb' : r.testBit idx = false := by simpa using hb
+      have hlt : meas n (r ||| 1 <<< idx) < meas n r :=
+        meas_lt (fun j hj => (testBit_set ..).2 (Or.inl hj)) hidx hb'
+          ((testBit_set ..).2 (Or.inr rfl))
+      obtain ⟨r1, hr1⟩ := ih (r ||| 1 <<< idx) idx (by omega)
+      rw [hr1]
+      have hmono := hpost _ _ _ hr1
+      have : meas n r1 ≤ meas n (r ||| 1 <<< idx) := meas_mono hmono
+      exact ihL r1 hrest (by omega)
+
+theorem rec_ok {n : Nat} {direct : List CSet} :
+    ∀ (fuel : Nat) (result cur : Nat), meas n result < fuel →
+      ∃ r', recurseImplies n direct fuel result cur = .ok r' := by
+  intro fuel
+  induction fuel with
+  | zero => intro _ _ h; omega
+  | succ fuel ih =>
+    intro result cur hm
+    simp only [recurseImplies]
+    exact loop_ok ih (fun _ _ _ h => (rec_post _ _ _ _ h).1.mono) _ _ (fun x hx => ((mem_indices ..).1 hx).1) (by omega)
+
 end Vet
